@@ -12,7 +12,8 @@ def sh(cmd, cwd, timeout=600):
     return r.returncode, (r.stdout + r.stderr)
 
 
-def confirm(src_dir, letter, pid):
+def confirm(src_dir, letter, pid, store_letter=None):
+    store_letter = store_letter or letter
     diff = os.path.join(src_dir, f"seed_{letter}.diff")
     demo = os.path.join(src_dir, f"seed_{letter}_demo.py")
     meta = os.path.join(src_dir, f"seed_{letter}_meta.json")
@@ -33,7 +34,7 @@ def confirm(src_dir, letter, pid):
         ok = rc0 == 0 and rc1 != 0 and rct == 0 and "124 passed" in tail
         res = dict(ok=ok, demo_clean_exit=rc0, demo_patched_exit=rc1, tests=tail, demo_patched_tail=out1.strip().splitlines()[-3:])
         if ok:
-            dst = os.path.join(HERE, "seeded", f"{pid}-{letter}")
+            dst = os.path.join(HERE, "seeded", f"{pid}-{store_letter}")
             os.makedirs(dst, exist_ok=True)
             shutil.copy(diff, os.path.join(dst, "patch.diff"))
             shutil.copy(demo, os.path.join(dst, "demo.py"))
@@ -49,11 +50,13 @@ def confirm(src_dir, letter, pid):
 
 
 if __name__ == "__main__":
-    only = sys.argv[1:]
-    for d in sorted(glob.glob("/tmp/seed/C*")):
+    args = [a for a in sys.argv[1:] if not a.startswith("--")]
+    src = ([a[6:] for a in sys.argv[1:] if a.startswith("--src=")] or ["/tmp/seed"])[0]
+    store = ([a[8:] for a in sys.argv[1:] if a.startswith("--store=")] or ["AB"])[0]
+    for d in sorted(glob.glob(src + "/C*")):
         pid = os.path.basename(d)
-        if only and pid not in only:
+        if args and pid not in args:
             continue
-        for letter in "AB":
-            r = confirm(d, letter, pid)
-            print(pid, letter, json.dumps(r)[:300], flush=True)
+        for letter, sl in zip("AB", store):
+            r = confirm(d, letter, pid, sl)
+            print(pid, sl, json.dumps(r)[:300], flush=True)
